@@ -699,6 +699,16 @@ func (rp *Reporter) Check(scheme string, st *Step, pre Obs, r *Real, beh any, id
 	} else if !eqInts(ob, obPre) {
 		rp.violation("CloneIndependent", scheme, st, cls, fmt.Sprintf("%s on proof %d changed the other proof object: %v -> %v", st.Op, st.Slot, obPre, ob), beh, idx, r)
 	}
+	// ... nor may the sparse form of the other proof object
+	if st.Op != "clone" {
+		ot, otPre := r.Obs.T1, pre.T1
+		if st.Slot == 1 {
+			ot, otPre = r.Obs.T0, pre.T0
+		}
+		if !eqInts(ot, otPre) && eqInts(ob, obPre) {
+			rp.violation("CloneIndependent", scheme, st, cls, fmt.Sprintf("%s on proof %d changed the sparse form of the other proof object: key ids %v -> %v", st.Op, st.Slot, otPre, ot), beh, idx, r)
+		}
+	}
 	if !subset(tbPre, tb) {
 		rp.violation("Monotone", scheme, st, cls, fmt.Sprintf("signer set shrank: %v -> %v", tbPre, tb), beh, idx, r)
 	}
